@@ -50,6 +50,7 @@ SimNext ==
   \/ \E s \in 1..3 : SimWriteMessage(s) /\ w' = s
   \/ \E s \in 1..2 : SimPrepared(s) /\ w' = s
   \/ \E s \in 1..2 : SimControl(s) /\ w' = s
+  \/ \E s \in 3..5 : h = "open" /\ nfl > 0 /\ SimControl(s) /\ w' = s     \* control frames between fragments
 
 SimSpec == Init /\ w = 0 /\ [][SimNext]_simvars
 =============================================================================
